@@ -6,7 +6,7 @@ tier=${1:-quick}
 cd "$(dirname "$0")/.."
 out=selftest-report.json
 echo "[" > $out.tmp; first=1
-for d in seeded/*/; do
+for d in seeded/*/; do [ -f "$d/meta.json" ] || continue
   name=$(basename $d)
   wt=/tmp/selftest-$name
   git -C /repo worktree remove --force $wt >/dev/null 2>&1
